@@ -454,7 +454,7 @@ def run(ctx):
 
     # (2) recorded concurrent histories of the real engine -> linearizability search by TLC
     scripts = []
-    nscripts, nh = (4, 40) if not T else (12, 150)
+    nscripts, nh = (4, 40) if not T else (8, 80)
     for s in range(nscripts):
         cfg = {"M": ctx.rng.choice([1, 2, 3]), "C": ctx.rng.choice([1, 2, 3]), "W": 3600}
         hs = []
@@ -465,9 +465,9 @@ def run(ctx):
                 hs.append(rand_history(ctx.rng, cfg, ctx.rng.randint(2, 4), ctx.rng.randint(2, 4)))
         scripts.append(script_of(cfg, hs))
     # storms in compact form (one engine each) and selection storms
-    for k in range(2 if not T else 8):
+    for k in range(2 if not T else 4):
         cfg = {"M": ctx.rng.choice([1, 2]), "C": ctx.rng.choice([1, 2]), "W": 3600}
-        scripts.append(script_of(cfg, [batch_storms(ctx.rng, 5000 if not T else 25000, 8)] +
+        scripts.append(script_of(cfg, [batch_storms(ctx.rng, 5000 if not T else 12000, 8)] +
                                  [sel_storm_history(ctx.rng, 40 if not T else 200, 4)]))
     traces = run_observing_crashes(ctx, binary, scripts, "rand")
     if traces is None:
